@@ -147,9 +147,9 @@ def focus_c17(proj, rng, steps):
     names = [t["name"] for t in proj.targets]
     r = rng.random()
     if r < 0.5:
-        steps.append(H.step_cancel(proj, rand_patterns(rng, names), fail_nth=rng.choice([None, None, 1, 2])))
+        steps.append(H.step_cancel(proj, rand_patterns(rng, names), fail_nth=rng.choice([None, None, 1, 2]), fail_kind=rng.choice(["exit1", "stderr_error"])))
     elif r < 0.75:
-        steps.append(H.step_cancel(proj, [], force=True, fail_nth=rng.choice([None, 1, 2, 3])))
+        steps.append(H.step_cancel(proj, [], force=True, fail_nth=rng.choice([None, 1, 2, 3]), fail_kind=rng.choice(["exit1", "stderr_error"])))
     else:
         steps.append(H.step_cancel(proj, [], force=False, answer=rng.choice(["y\n", "n\n", ""])))
     steps.append(H.step_status(proj))
@@ -350,7 +350,7 @@ def focus_c07(proj, rng, steps):
     names = [t["name"] for t in proj.targets]
     for _ in range(rng.randint(2, 4)):
         pats = rand_patterns(rng, names, allow_nomatch=False) if rng.random() < 0.6 else []
-        steps.append(H.step_run(proj, pats))
+        steps.append(H.step_run(proj, pats, reject_nth=rng.choice([None, None, None, 2, 3]) if proj.backend != "local" else None))
         progress(proj, rng)
         if rng.random() < 0.3:
             steps.append(H.step_status(proj))
